@@ -125,6 +125,10 @@ def run(F, R):
     # P20: the areas the device is told about lie inside the DMA memory allocated for them, for every queue size (C06.L2)
     from .C06 import registration_rule as _reg
     _reg(F, RuleProxy(R, {'L2': 'P20', 'L3': 'P20'}, only=lambda inst: inst.endswith(':areas')), 'L2')
+    # P21: a driver that pops and re-posts its own buffers shares the slot it unshared - the same object - so that the later unshare gets
+    # the address of its own share (C19.Q1 / Q2)
+    from .C19 import pop_readd_rule
+    pop_readd_rule(F, R, 'P21')
     # P18: unshare only for a matched completion (C03.E15); P19: descriptor flags written fresh on every reuse, so the release path
     # takes the branch of the chain actually submitted (C01.F1)
     from .C03 import release_rule
